@@ -529,6 +529,10 @@ def stubStage (i : Nat) (d : Nat × Nat × Nat × Bool) : Stage Nat :=
       | 1 => some fun _ => .ok true
       | 2 => some fun _ => .ok false
       | 3 => some fun _ => .raise
+      -- 4 / 5 / 6: the same answers from a gate OBJECT whose own truth value is false - a checkpoint like any other
+      | 4 => some fun _ => .ok true
+      | 5 => some fun _ => .ok false
+      | 6 => some fun _ => .raise
       | _ => none
     processor := fun x => if d.2.1 = 0 then .ok (x * 10 + i + 1) else .raise
     onError := match d.2.2.1 with
